@@ -101,6 +101,11 @@ def probe(job):
         return ("exc", err_kind(e))
 
 
+def probe_seq(job):
+    """one process: the calls of the list one after the other (what one call validated must not excuse the next)"""
+    return [probe(j) for j in job]
+
+
 def run(ctx):
     tier = ctx["tier"]
     R = rng("c02")
@@ -200,6 +205,18 @@ def run(ctx):
         jobs.append(("parse", v, {}, None)); expect.append("TypeError")
         jobs.append(("gdd", v, {}, None)); expect.append("TypeError")
     res = pmap(probe, jobs, chunksize=32)
+    # a wrongly typed value that is the valid value written as text ('True', '1000', "['day']", '2020-01-01 00:00:00' — what a config file or a
+    # query string delivers), *after* the valid value was used in the same process: still rejected, whatever the string
+    twins = [("STRICT_PARSING", True), ("NORMALIZE", True), ("PREFER_LOCALE_DATE_ORDER", False), ("RETURN_AS_TIMEZONE_AWARE", True), ("RETURN_TIME_AS_PERIOD", True),
+             ("CACHE_SIZE_LIMIT", 1000), ("LANGUAGE_DETECTION_CONFIDENCE_THRESHOLD", 0.5), ("REQUIRE_PARTS", ["day"]), ("PARSERS", ["timestamp", "absolute-time"]),
+             ("DEFAULT_LANGUAGES", ["en"]), ("SKIP_TOKENS", ["t"]), ("RELATIVE_BASE", D(2020, 1, 1))]
+    seq_jobs = []
+    for key, good in twins:
+        for s_ in ("12 March 2015", "1 hour ago", "no date here"):
+            for api in ("parse", "gdd"):
+                seq_jobs.append([(api, s_, {"settings": {key: good}}, None), (api, s_, {"settings": {key: str(good)}}, None),
+                                 (api, s_, {"settings": {key: str(good), "TIMEZONE": "UTC"}}, None)])
+    seq_res = pmap(probe_seq, seq_jobs, chunksize=1, force=True)
     known = load_known("C02")
     viol = []
     kinds = collections.Counter()
@@ -227,6 +244,13 @@ def run(ctx):
                 kh[val] += 1
                 continue
             viol.append({"api": job[0], "string": job[1], "kwargs": job[2], "date_formats": job[3], "why": why})
+    for sj, sr in zip(seq_jobs, seq_res):
+        if sr[0][0] == "exc":
+            viol.append({"api": sj[0][0], "string": sj[0][1], "kwargs": sj[0][2], "date_formats": None, "why": "exception %s for a valid setting" % sr[0][1]})
+        for j_, r_ in zip(sj[1:], sr[1:]):
+            if r_ != ("exc", "SettingValidationError") and tuple(r_) != ("exc", "SettingValidationError"):
+                viol.append({"api": j_[0], "string": j_[1], "kwargs": j_[2], "date_formats": None, "earlier_call_in_this_process": {"kwargs": sj[0][2]},
+                             "why": "a value of the wrong type (the valid value written as text) is not rejected with SettingValidationError: %s %s" % (r_[0], r_[1])})
     for (sp, key), idxs in consistent.items():
         tags = {("rejected" if res[i] == ("exc", "SettingValidationError") else "accepted") for i in idxs if res[i][0] != "bad"}
         if len(tags) > 1 and len(viol) < 40:
@@ -257,7 +281,7 @@ def run(ctx):
     out = [{"replay": write_replay("C02", "escape-%d" % j, {"property": "C02", "kind": "totality / documented-exceptions contract broken", **v})} for j, v in enumerate(viol[:10])]
     if not viol and drift and not ctx["broken"]:
         ctx["broken"]["correspondence"] = json.dumps(drift[:3], ensure_ascii=False, default=str)[:3000]
-    cov = {"evaluations": len(jobs), "distinct_nontrivial": len(distinct),
+    cov = {"evaluations": len(jobs) + 3 * len(seq_jobs), "text_twin_sequences": len(seq_jobs), "distinct_nontrivial": len(distinct),
            "rule": "mutated corpus strings, token soups, digit/separator soups, arbitrary characters (|s| ≤ 100) × a bounded pool of settings over every documented key (extreme RELATIVE_BASE, fixed and IANA zones) × languages/locales/region × date_formats of distinct directives; plus an invalid-configuration stream; non-trivial = distinct strings that produced a date",
            "samples": [{"api": j[0], "s": j[1], "kwargs": {k: str(v)[:80] for k, v in j[2].items()}, "date_formats": j[3]} for j in jobs[:: max(1, len(jobs) // 6)][:6]],
            "outcome_kinds": dict(kinds), "contract_violations": len(viol), "invalid_configuration_cases": len([e for e in expect if e]),
